@@ -145,6 +145,72 @@ def family(rnd, g):
     return g.ss(items + extra), frags
 
 
+def triple(rnd, g):
+    """Three or more fields with one response name in one field map (directly, through inline fragments or a spread),
+    in every order: only one pair of them may be in conflict - every pair has to be compared, not only neighbours."""
+    def F(name, alias="", args=("", ""), sel=None):
+        return {"k": "F", "alias": alias, "name": name, "args": args[0], "text": args[1], "sel": sel if sel is not None else g.ss([])}
+    kind = rnd.choice(["name", "args", "shape", "sub", "none"])
+    host = rnd.choice(["a", "i", "u"])
+    if kind == "name":
+        same, other = F("x", "p"), F("f", "p")
+    elif kind == "args":
+        same, other = F("f", "p", ARGS[1]), F("f", "p", rnd.choice([ARGS[2], ARGS[0]]))
+    elif kind == "shape":
+        same, other = F("x", "p"), F("z", "p")                 # Int vs [Int] on A (Int on B: conflicting below exclusive parents too)
+    elif kind == "sub":
+        same, other = F("o", "p", sel=g.ss([F("x", "r")])), F("o", "p", sel=g.ss([F("y", "r")]))
+    else:
+        same, other = F("x", "p"), F("x", "p")
+    n = rnd.randint(3, 5)
+    slots = [dict(same) for _ in range(n)]
+    slots[rnd.randrange(n)] = other
+    items = []
+    frags = {}
+    if kind in ("name", "args", "none") and rnd.random() < 0.5:
+        # sandwich: between two fields of parent A that may conflict stands a field of the exclusive parent B that is
+        # compatible with both - the only pair in conflict is not adjacent in document order
+        host = rnd.choice(["i", "u"])
+        for k, f in enumerate(slots):
+            items.append({"k": "I", "on": "A", "sel": g.ss([f])})
+            if k + 1 < n:
+                items.append({"k": "I", "on": "B", "sel": g.ss([F(rnd.choice(["x", "y", "w"]), "p")])})
+        return g.ss([F(host, sel=g.ss(items))]), frags
+    for k, f in enumerate(slots):
+        r = rnd.random()
+        if r < 0.4 and host == "a":
+            items.append(f)
+        elif r < 0.8:
+            items.append({"k": "I", "on": rnd.choice(["", "A"]) if host == "a" else "A", "sel": g.ss([f])})
+        else:
+            name = f"T{k}"
+            frags[name] = {"on": "A", "sel": g.ss([f])}
+            items.append({"k": "S", "name": name})
+    root = g.ss([F(host, sel=g.ss(items))])
+    return root, frags
+
+
+def clone(g, ss):
+    return g.ss([dict(it, sel=clone(g, it["sel"])) if it["k"] in ("F", "I") else dict(it) for it in ss["items"]])
+
+
+def twin(rnd, g):
+    """The same sub-selection, spelled identically, below two object types on which its fields have different types
+    (A.y: String / B.y: Int, A.z: [Int] / B.z: Int, A.m: [Int!] / B.m: [Int]!): whatever is remembered per selection
+    set must not be shared between the two places (documents parsed without locations compare such sets equal)."""
+    def F(name, alias="", sel=None):
+        return {"k": "F", "alias": alias, "name": name, "args": "", "text": "", "sel": sel if sel is not None else g.ss([])}
+    leafs = [F(rnd.choice(["x", "y", "z", "w", "m"]), rnd.choice(["", "", "r"])) for _ in range(rnd.randint(1, 2))]
+    body = g.ss(leafs)
+    for _ in range(rnd.randint(0, 2)):
+        body = g.ss([F("o", rnd.choice(["", "p"]), sel=body)])
+    host = rnd.choice(["u", "i"])
+    left = {"k": "I", "on": "A", "sel": g.ss([F("o", sel=body)])}
+    right = {"k": "I", "on": "B", "sel": g.ss([F("o", sel=clone(g, body))])}
+    items = [left, right] if rnd.random() < 0.5 else [right, left]
+    return g.ss([F(host, sel=g.ss(items))]), {}
+
+
 def forwardize(rnd, g, frags):
     """pure forwarding fragments: the body of a fragment moves to a new fragment that the old one only spreads (directly
     or inside an inline fragment) - the comparison between fragments must go on into the fragments they spread"""
@@ -186,7 +252,11 @@ def _chunk(seeds):
     for sd in seeds:
         rnd = random.Random(sd)
         g = Gen(rnd)
-        if sd % 4 == 3:
+        if sd % 8 == 5:
+            root, frags = triple(rnd, g)
+        elif sd % 16 == 9:
+            root, frags = twin(rnd, g)
+        elif sd % 4 == 3:
             root, frags = family(rnd, g)
         else:
             fr = rnd.choice([[], ["F"], ["F", "G"], ["F", "G", "H"]])
@@ -202,6 +272,11 @@ def _chunk(seeds):
         try:
             errs = validate(schema, parse(text), [OverlappingFieldsCanBeMergedRule])
             rec["reported"] = bool(errs)
+            # the same document without locations: its nodes compare by value, equal selection sets at different places
+            # are equal dictionary keys. The verdict has to be the same; if it is not, the specification judges both.
+            errs2 = validate(schema, parse(text, no_location=True), [OverlappingFieldsCanBeMergedRule])
+            if bool(errs2) != bool(errs):
+                out.append(dict(rec, reported=bool(errs2), _text=text + "  # parsed with no_location"))
         except Watchdog:
             rec["_fail"] = "timeout"
         except RecursionError:
